@@ -10,6 +10,7 @@ mod treeparse;
 mod polys;
 mod c01;
 mod c03;
+mod c04;
 mod c07;
 mod c08;
 mod c09;
@@ -49,6 +50,7 @@ fn real_main() {
             let ok = match id {
                 "C01" | "C02" => c01::replay(&toks, &mut out, req),
                 "C03" => c03::replay(&toks, &mut out),
+                "C04" | "C05" => c04::replay(&toks, &mut out),
                 "C07" => c07::replay(&toks, &mut out),
                 "C08" => c08::replay(&toks, &mut out),
                 "C09" => c09::replay(&toks, &mut out),
@@ -67,6 +69,7 @@ fn real_main() {
             "C01" => c01::generate(&mut rng, thorough, &mut out, false),
             "C02" => c01::generate(&mut rng, thorough, &mut out, true),
             "C03" => c03::generate(&mut rng, thorough, &mut out),
+            "C04" | "C05" => c04::generate(&mut rng, thorough, &mut out),
             "C07" => c07::generate(&mut rng, thorough, &mut out),
             "C08" => c08::generate(&mut rng, thorough, &mut out),
             "C09" => c09::generate(&mut rng, thorough, &mut out),
